@@ -1,10 +1,86 @@
-"""Model of aware datetimes and of the non-integer phantom predicates (filled in by C12 work)."""
-from .core import Undecided
+"""Model of aware datetimes and of the non-integer phantom predicates.
+
+A symbolic datetime is an *aware* datetime in UTC: SOpaque(us, "datetime") with `us` the
+(integer) number of microseconds since the epoch. Equality of aware datetimes is equality of
+instants, so this is exact for every comparison the code under contract makes.
+
+Two float facts are admitted as trusted lemmas because they are exact:
+  * `dt.timestamp() >= 0  <=>  instant_us(dt) >= 0` (timestamp() is a correctly rounded
+    monotone function of the instant and maps 0 to 0.0) - modelled by SInstantSeconds, which
+    only supports comparison against integers;
+  * datetime.timezone.utc.utcoffset(x) is timedelta(0).
+"""
+from __future__ import annotations
+
+import datetime
+import z3
+
+from . import opaque
+from .core import PyRaise, SBool, SInt, SOpaque, SOpt, Sym, Undecided, lower, zint
+from .interp import SymMethod
+
+
+class SInstantSeconds(Sym):
+    """the float dt.timestamp(): exact rational us/10^6; only its order against ints is used"""
+
+    def __init__(self, us):
+        self.us = us
+
+    def __repr__(self):
+        return f"SInstantSeconds({self.us}/1e6)"
 
 
 def attr(interp, o, name):
+    ctx = interp.ctx
+    us = o.t
+    if name == "tzinfo":
+        return datetime.timezone.utc
+    if name == "microsecond":
+        return lower(us % 10 ** 6)
+    if name == "timestamp":
+        return SymMethod(lambda: SInstantSeconds(us), "timestamp")
+    if name == "utcoffset":
+        return SymMethod(lambda: datetime.timedelta(0), "utcoffset")
+    if name == "replace":
+        def replace(**kw):
+            if set(kw) != {"microsecond"}:
+                raise Undecided(f"datetime.replace({sorted(kw)}) is not modelled")
+            m = kw["microsecond"]
+            mt = zint(m)
+            if not ctx.decide(z3.And(mt >= 0, mt <= 999999)):
+                raise PyRaise(ValueError, "microsecond must be in 0..999999")
+            return SOpaque(z3.simplify(us - us % 10 ** 6 + mt), "datetime")
+        return SymMethod(replace, "replace")
     raise Undecided(f"datetime.{name} is not modelled")
 
 
+def compare_instant(interp, op, a, b):
+    import ast
+    if isinstance(a, SInstantSeconds) and isinstance(b, (int, SInt)) and not isinstance(b, bool):
+        x, y = a.us, zint(b) * 10 ** 6
+    elif isinstance(b, SInstantSeconds) and isinstance(a, (int, SInt)) and not isinstance(a, bool):
+        x, y = zint(a) * 10 ** 6, b.us
+    else:
+        raise Undecided("float comparison (outside the subset)")
+    t = {ast.Lt: x < y, ast.LtE: x <= y, ast.Gt: x > y, ast.GtE: x >= y, ast.Eq: x == y, ast.NotEq: x != y}[type(op)]
+    return lower(t)
+
+
 def phantom_predicate(interp, v, cls):
-    raise Undecided(f"phantom predicate of {cls.__name__} on symbolic value")
+    """contract of the non-interval phantom predicates, used at call sites (C12 verifies the
+    real predicates against the same characterisation)"""
+    name = cls.__name__
+    if isinstance(v, SOpaque) and v.kind == "timedelta":
+        from spec import domains
+        if name == "i32Timedelta":
+            return lower(z3.And(v.t >= -(2 ** 31) * 1000, v.t <= (2 ** 31 - 1) * 1000))
+        if name == "i64Timedelta":
+            return lower(z3.And(v.t >= opaque.TD_MIN_US, v.t <= opaque.TD_MAX_US - 86400 * 10 ** 6))
+    if isinstance(v, SOpaque) and v.kind == "datetime":
+        if name == "TZAwareMicros":
+            return lower(v.t >= 0)
+        if name == "TZAware":
+            return lower(z3.And(v.t >= 0, v.t % 1000 == 0))
+    if isinstance(v, SOpaque) and v.kind == "float" and name == "f64":
+        return lower(opaque.isfinite(v.t))
+    raise Undecided(f"phantom predicate of {name} on {v!r}")
